@@ -4,12 +4,14 @@
 //	new          => ok
 //	key <hex|->  => <64 hex digits>
 //	hash <hex|-> => <16 hex digits>
+//	mac <hex|->  => <12 hex digits>   (ebpf.MACToUint64 of a hardware address of any length)
 package circuitkey
 
 import (
 	"encoding/hex"
 	"fmt"
 	"math/rand"
+	"net"
 	"os"
 	"strconv"
 	"sync"
@@ -117,6 +119,25 @@ func (comp) Gen(r *rand.Rand, tier string, emit func([]string)) {
 		}
 		emit(seq)
 	}
+	// hardware addresses of every length 0…16 (DHCP hlen): several per length, incl. longer ones sharing their
+	// first 6 bytes with a 6-byte address, and 6-byte addresses differing in one byte
+	for k := 0; k < rounds; k++ {
+		seq := []string{"new"}
+		base := randBytes(r, 16)
+		for n := 0; n <= 16; n++ {
+			seq = append(seq, "mac "+tok(base[:n]), "mac "+tok(randBytes(r, n)))
+			if n >= 6 {
+				alt := append(append([]byte{}, base[:6]...), randBytes(r, n-6)...)
+				seq = append(seq, "mac "+tok(alt))
+			}
+		}
+		for i := 0; i < 12; i++ {
+			alt := append([]byte{}, base[:6]...)
+			alt[r.Intn(6)] ^= byte(1 + r.Intn(255))
+			seq = append(seq, "mac "+tok(alt))
+		}
+		emit(seq)
+	}
 	for i := 0; i < nRand; i++ {
 		seq := []string{"new"}
 		for j, l := 0, 2+r.Intn(12); j < l; j++ {
@@ -196,6 +217,8 @@ func (r *run) Do(op string) string {
 		return hex.EncodeToString(k[:])
 	case "hash":
 		return fmt.Sprintf("%016x", ebpf.HashCircuitID(b))
+	case "mac":
+		return fmt.Sprintf("%012x", ebpf.MACToUint64(net.HardwareAddr(b)))
 	}
 	return "badop"
 }
